@@ -176,8 +176,8 @@ def r2_classification(idx, r):
     r.require(st.get("isVolIntegrated") == "{paramName: b.p.paramDefs[paramName].atLocation(parameters.ParamLocation.VOLUME_INTEGRATED) for paramName in blockParamNames}", "isVolIntegrated-from-definition", init,
               msg="whether a parameter is volume integrated must come from its definition's location")
     r.require(st.get("isPeak") == "{paramName: b.p.paramDefs[paramName].atLocation(parameters.ParamLocation.MAX) for paramName in blockParamNames}", "isPeak-from-definition", init, msg="whether a parameter is a peak must come from its definition's location")
-    at = idx.method("armi.reactor.parameters.parameterDefinitions.Parameter", "atLocation")
-    r.require(norm(at.node.body[-1]) == "return self.location and self.location & loc", "Parameter.atLocation", at, msg="atLocation tests the definition's location flags")
+    from .c08 import at_location_rule
+    at_location_rule(idx, r)
     pg = idx.method(UM + ".ParamMapper", "paramGetter")
     loop = next((n for n in pg.node.body if isinstance(n, ast.For)), None)
     fb = Flow(pg.node, lambda n: ["app"] if isinstance(n, ast.Call) and norm(n.func) == "paramVals.append" else [], body=loop.body).run() if loop is not None else None
